@@ -31,6 +31,10 @@ func applyLayout(n *zoo.FNode, layout, idx int) {
 		n.FS2 = []string{}
 	case 3:
 		n.FT = time.Unix(1500000000+int64(idx), int64(idx%2)*5e6)
+		if idx%2 == 0 {
+			pt := time.Unix(1400000000+int64(idx), 7e6)
+			n.FPT = &pt // a pointer to a timestamp is a date on the wire, not an object
+		}
 	case 4:
 		n.FStr = "s"
 		n.FBin = []byte{1, 2, 3}
